@@ -222,4 +222,8 @@ def signature(e):
             c = _c(e)
             c["spy_ok"] = False
             out.append(("spy_ok", c))
+    if e["kind"] == "deliver" and e["kws"]:
+        c = _c(e)
+        c["kws"][0]["where"] = "nowhere"
+        out.append(("where", c))
     return out
